@@ -958,6 +958,11 @@ func (m *Memberlist) aliveNode(a *alive, notify chan struct{}, bootstrap bool) {
 	// that aliveMsg process, it'll cause us to re-join the cluster. This
 	// ensures that we don't.
 	if m.hasLeft() && a.Node == m.config.Name {
+		// Nothing will be broadcast, so whoever waits for the broadcast
+		// (UpdateNode) must not wait for it.
+		if notify != nil {
+			close(notify)
+		}
 		return
 	}
 
